@@ -881,12 +881,13 @@ Definition render_layout (front : list bytes) (indent : bytes) (pieces : list by
 (* ------------------------------------------------------------------------------------ *)
 Definition no_byte (ch : N) (s : bytes) : bool := forallb (fun c => negb (c =? ch)) s.
 
-(* operator text: no backslash immediately before a double quote, none at the very end *)
-Fixpoint wf_esc (s : bytes) : bool :=
+(* operator text: every double quote and the end of the text is preceded by an EVEN number of
+   backslashes ([esc] = parity of the run of backslashes just before the current position) *)
+Fixpoint wf_esc (s : bytes) (esc : bool) : bool :=
   match s with
-  | [] => true
-  | c :: s' => (if c =? cBS then match s' with [] => false | d :: _ => negb (d =? cDQ) end else true)
-               && wf_esc s'
+  | [] => negb esc
+  | c :: r => if c =? cDQ then negb esc && wf_esc r false
+              else if c =? cBS then wf_esc r (negb esc) else wf_esc r false
   end.
 
 (* regex key: every slash is escaped and the text does not end inside an escape, under the
@@ -920,7 +921,7 @@ Definition wf_target (t : target) : bool :=
 
 Definition wf_op (o : opdesc) : bool :=
   operator_known (o_name o) && bytes_eqb (o_fn o) (op_prefix (o_neg o) ++ o_name o)
-  && bytes_eqb (p_trim_space (o_arg o)) (o_arg o) && wf_esc (o_arg o) && line_safe (o_arg o).
+  && bytes_eqb (p_trim_space (o_arg o)) (o_arg o) && wf_esc (o_arg o) false && line_safe (o_arg o).
 
 (* action value written between single quotes: a single quote only directly after a
    backslash, no backslash at the end *)
